@@ -1109,6 +1109,7 @@ func (x *Exec) assignTo(st *State, l ast.Expr, v *Value) {
 			return
 		}
 		// package-level variable
+		x.guardGlobal(st, obj.Name(), l, true)
 		st.globals[obj.Name()] = x.coerce(st, v, obj.Type())
 	case *ast.SelectorExpr:
 		sel := x.eng.info.Selections[l]
